@@ -15,12 +15,13 @@ INIT_LISTS = [[], [0], [0, 1], [1, 0, 1]]
 INIT_SETS = [[], [0], [0, 1]]
 
 
-def list_case(n_ops, first):
-    """h.member_of : List[Org] (MemberOf, inverse Member) written in every way; model = a plain list"""
+def list_case(n_ops, first, twins=False):
+    """h.member_of : List[Org] (MemberOf, inverse Member) written in every way; model = a plain list.
+    twins: pool elements 0 and 2 are distinct objects that compare equal and hash alike"""
 
     def h(ctx):
         W.fresh_graph()
-        pool = [W.Org(name=i) for i in range(3)]
+        pool = [W.TwinOrg(name=[0, 1, 0][i]) for i in range(3)] if twins else [W.Org(name=i) for i in range(3)]
         hum = W.Human(name=9)
         init = INIT_LISTS[ctx.choice("init", len(INIT_LISTS))]
         model = []
@@ -33,7 +34,7 @@ def list_case(n_ops, first):
             for s in range(n_ops):
                 n = len(model)
                 opts = [("assign", (0, 1)), ("assign", (1, 0, 1)), ("assign", ()), ("self-assign",), ("iadd", (2,)), ("iadd", (0, 0)), ("append", 2), ("append", 0),
-                        ("extend", (1, 2)), ("extend", ())] + [("insert", p, 2) for p in sorted({0, n, -1, -(n + 1), n + 1})] + [("setitem", p, 2) for p in sorted({0, n - 1}) if 0 <= p < n]
+                        ("extend", (1, 2)), ("extend", ()), ("extend", (0, 2)), ("assign", (0, 2)), ("iadd", (2, 0))] + [("insert", p, 2) for p in sorted({0, n, -1, -(n + 1), n + 1})] + [("setitem", p, 2) for p in sorted({0, n - 1}) if 0 <= p < n]
                 if s < len(first):
                     op = first[s]
                     if op not in opts:
@@ -152,6 +153,10 @@ def cases(tier, seed):
         nm = "list field|first=%s" % ":".join(map(str, f))
         cs.append(Case(nm + "|ops=%d" % n, list_case(n, [f]), key=nm, reset=W.world_reset, validate=0, timeout=900, max_paths=400000, cex_grace=10**9))
     cs.append(Case("list field|first=setitem|ops=%d" % n, list_case(n, []), key="list field|any", reset=W.world_reset, validate=0, timeout=900, max_paths=400000, cex_grace=10**9))
+    # elements that are equal but distinct objects: each of them is an element of the field of its own
+    for f in [("extend", (0, 2)), ("assign", (0, 2)), ("iadd", (2, 0)), ("append", 2), ("insert", 0, 2)]:
+        nm = "list field with value-equal twins|first=%s" % ":".join(map(str, f))
+        cs.append(Case(nm + "|ops=%d" % n, list_case(n, [f], twins=True), key=nm, reset=W.world_reset, validate=0, timeout=900, max_paths=400000, cex_grace=10**9))
     for f in SET_FIRST:
         nm = "set field|first=%s" % ":".join(map(str, f))
         cs.append(Case(nm + "|ops=%d" % n, set_case(n, [f]), key=nm, reset=W.world_reset, validate=0, timeout=900, max_paths=400000, cex_grace=10**9))
@@ -163,7 +168,7 @@ def describe(tier):
     return dict(
         rule="initial contents (ordered list with repetitions / set over a pool of 3 elements, a bounded symbolic choice) followed by %d write operations chosen symbolically from "
         "{assign a new collection, x.f = x.f, += / |=, append, extend, insert (front / end / negative index), item assignment, add, update} with operands from the pool, on a "
-        "list-valued (Human.member_of) and a set-valued (Org.members) managed field; the field must equal the same operations applied to a plain list / set (order and "
+        "list-valued (Human.member_of; also with a pool in which two distinct elements compare equal and hash alike) and a set-valued (Org.members) managed field; the field must equal the same operations applied to a plain list / set (order and "
         "multiplicity for lists) and every element of the field must be related in the symbol graph with its inverse inferred. non-trivial = non-empty final contents" % n,
         bounds=dict(operations=n, pool=3, initial_lengths="<= 3"),
         outside=["extend / update with the field itself as argument (does not terminate on the unchanged tree; reported in DESIGN.md, not run)", "remove / pop / clear / del (not named by the property)", "more than %d operations" % n],
